@@ -176,7 +176,7 @@ def twin_runs(ctx, rng, n, sl):
     for i in range(n):
         nlev = int(rng.choice([1, 2, 2, 3]))
         eng = {0: ["de", "ded", "shade", "lhs", "sobol", "xde"], 1: ["de", "ded", "shade", "cma", "cmaw", "cmas", "xde"] + (["local"] if nlev == 2 else []), 2: ["de", "shade", "cma", "cmaw", "local", "xde"]}
-        spec = R.rand_spec(rng, nlev=nlev, engines=eng, objective=str(rng.choice(["four", "plateau0", "sphere"])), max_steps=int(rng.integers(3, 8)))
+        spec = R.rand_spec(rng, nlev=nlev, engines=eng, objective=str(rng.choice(["four", "plateau0", "sphere", "penalty"])), max_steps=int(rng.integers(3, 8)))
         for L in spec["levels"]:
             if L["lsc"]["kind"] == "FitnessSteadiness":
                 L["lsc"] = {"kind": "MetaepochLimit", "limit": int(rng.integers(1, 5))}
@@ -184,7 +184,14 @@ def twin_runs(ctx, rng, n, sl):
             spec["gsc"] = {"kind": "SingularProblemEvalLimitReached", "limit": int(rng.integers(60, 400))}
         if spec["gsc"]["kind"] == "User":
             spec["gsc"]["look"] = False
-        spec["cutoff"] = None
+        # an exhausted evaluation cutoff hands the sentinel (the worst value, +-inf) to the engines:
+        # it must mirror too; keep the run going past the cutoff with a metaepoch-based stop condition
+        if rng.random() < 0.3:
+            spec["cutoff"] = int(rng.integers(40, 200))
+            spec["shared_problem"] = True
+            spec["gsc"] = {"kind": "MetaepochLimit", "limit": int(rng.integers(3, 8))}
+        else:
+            spec["cutoff"] = None
         a = dict(spec, maximize=False)
         b = dict(spec, maximize=True)
         try:
